@@ -867,6 +867,23 @@ def run(ctx):
                    "(first index with v <= a[i] on a sorted array), isclose (|a-b| <= 1e-8 + 1e-5|b|)",
                    "harness/props/c20.py (generators, independent oracle, Coq term printer)",
                    "IEEE-754 arithmetic of CPython/numpy (rounded; model exact over Q)"]
+    ctx.trusted.insert(3, "harness/vlib/py2coq.py + harness/props/c20_src.py: translator (symbolic execution, fail-closed) of "
+                          "Lanelet.distance, _compute_polyline_cumsum_dist (one polyline) and interpolate_position "
+                          "(commonroad/scenario/lanelet.py:293-301,357-366,664-686) into coq/Gen/Src_arclen.v on every run; "
+                          "C20_model_is_source proves cum / interpolate of Model/ArcLen.v equal to that text (np.sqrt "
+                          "uninterpreted, lanelet with _distance None); the Gallina meaning given to np.diff, square/sum, "
+                          "append, empty + column store, amin over one column, cumsum, searchsorted, array indexing (py_nth) "
+                          "and float64 division by zero (deferred 'nan') in c20_src.py is trusted")
+    from props import c20_src
+    from vlib.py2coq import TranslationError
+    try:
+        changed = c20_src.generate()
+        ctx.notes.append(f"Gen/Src_arclen.v regenerated from the source ({'changed' if changed else 'unchanged'})")
+    except Exception as e:   # TranslationError, SyntaxError, OSError, or a hook that met an unexpected shape
+        # fail closed: the source left the translatable subset, the model is no longer shown to be the source
+        ctx.proof_breaks.append({"theorem": "translator:Gen/Src_arclen.v (C20_model_is_source)",
+                                 "where": "harness/props/c20_src.py", "log": str(e)})
+        ctx.log(f"translator failed: {e}")
     ctx.build_props(extra_targets=["Corr/C20.vo"])
     if ctx.tier == "thorough":
         ctx.coqchk()
